@@ -1341,6 +1341,8 @@ def _i_len(it, args, kw, node, fi):
         return Fraction(len(x))
     if isinstance(x, Cat):
         return Fraction(len(x.parts))
+    if hasattr(x, "shape") and hasattr(x, "rows") and hasattr(x, "__len__"):
+        return Fraction(len(x))            # an index-level tensor supplied by a rule
     if isinstance(x, Obj) and isinstance(x.attrs.get("__len__"), Intrinsic):
         return x.attrs["__len__"].fn(it, [], {}, node, fi)
     if isinstance(x, Obj) and x.cls is not None:
